@@ -4,6 +4,8 @@
 From Coq Require Import List ZArith Bool.
 From FV Require Import Base OutputM.
 From FVP Require Import OutputM_proofs.
+From FV Require Sched.
+From FVP Require Sched_proofs Confluence_proofs Trace_proofs.
 Import ListNotations.
 Open Scope Z_scope.
 
@@ -27,6 +29,18 @@ Theorem C09_bounded :
        <= 1 + newer_than m (st_hist (final_unb (init keys) ops)))%nat.
 Proof. intros A. exact (@bounded A). Qed.
 
+(** The hypothesis "non-decreasing request times per consumer" is what the driver's own consumers satisfy: in the
+    scheduler model (FV.Sched) the time that reaches the source over a link of pass-through adapters and fixed delays
+    ([pe_chain], proved equal to the real pull in Trace_proofs.pull_chain_stateless) at the j-th update of a
+    time-stepped consumer is non-decreasing in j — so C09_refines_unbounded applies to every run of the scheduler
+    (known finding F16 is the case this does NOT cover: one registered end point standing for several readers). *)
+Theorem C09_driver_requests_nondecreasing :
+  forall cs c inp (j j' : nat),
+    Sched_proofs.wf cs -> Sched.is_time cs c = true -> (j <= j')%nat ->
+    fst (Trace_proofs.pe_chain (Sched.i_chain inp) (Sched.init_of cs (Sched.i_src inp)) (Confluence_proofs.tfun cs c j))
+    <= fst (Trace_proofs.pe_chain (Sched.i_chain inp) (Sched.init_of cs (Sched.i_src inp)) (Confluence_proofs.tfun cs c j')).
+Proof. intros cs c inp j j' W. apply Trace_proofs.requests_nondecreasing; exact W. Qed.
+
 (** Non-vacuity: a concrete valid interleaving with two consumers, evictions and diverging requests. *)
 Definition ex_ops : list (op nat) :=
   [Push 0 0%nat; Push 10 1%nat; Pull 1 0; Pull 2 10; Push 20 2%nat; Pull 1 14; Pull 2 20;
@@ -40,3 +54,4 @@ Proof. split; [|vm_compute; reflexivity]. simpl. unfold pull_ok. simpl. repeat s
 
 Print Assumptions C09_refines_unbounded.
 Print Assumptions C09_bounded.
+Print Assumptions C09_driver_requests_nondecreasing.
